@@ -8,13 +8,21 @@ root="$(cd "$(dirname "$0")" && pwd)"
 export VERIF_ROOT="$root"
 mkdir -p "$root/.work/bin"
 bin="$root/.work/bin/check.$$"
-cp /repo/go.sum "$root/harness/go.sum" 2>/dev/null
-if ! (cd "$root/harness" && go build -tags verif -o "$bin" ./cmd/check) ; then
+repo="${VERIF_REPO:-/repo}"
+cp "$repo/go.sum" "$root/harness/go.sum" 2>/dev/null
+modflag=""
+if [ "$repo" != "/repo" ]; then
+  # development aid: check a scratch copy of the repository instead of /repo
+  sed "s#=> /repo#=> $repo#" "$root/harness/go.mod" > "$root/.work/bin/go.$$.mod"
+  cp "$root/harness/go.sum" "$root/.work/bin/go.$$.sum"
+  modflag="-modfile=$root/.work/bin/go.$$.mod"
+fi
+if ! (cd "$root/harness" && go build $modflag -tags verif -o "$bin" ./cmd/check) ; then
   echo "INFRA: the harness does not build against /repo's working tree"
   # a tree that does not compile with the hooks is not a verdict about the property
   exit 2
 fi
 "$bin" prop "$@"
 rc=$?
-rm -f "$bin"
+rm -f "$bin" "$root/.work/bin/go.$$.mod" "$root/.work/bin/go.$$.sum"
 exit $rc
